@@ -9,6 +9,12 @@ CLAIMED = {
  "C10": ("TLC model-checks the cross-node frame writer/reader (spec/CrossFrame.tla: write segmentation into <=MAX frames, reader buffer/offset/EOF, foreign-tunnel, colliding-id and unknown-type frames, half-close/close; decoder length/truncation classes) and enumerates write-size x injection x reader-buffer scripts; each runs on the real crossnode.FrameStream pair over loopback TCP, the real ReadFrameFromReader and the real runBidirectionalForward; deliveries, end-of-stream, decoder outcomes and allocation are judged by TLC (spec/CrossFrameTrace.tla).",
          "trusts TLC, spec/CrossFrameTrace.tla as the reading of C10, byte-class attribution and allocation measurement in drivers/c10, loopback TCP; scaled-down MAX in the model",
          "TLA+ model of frame stream; TLC-enumerated scripts replayed on real code; TLC trace validation", "DESIGN.md §5 C10"),
+ "C12": ("TLC model-checks the client relays (spec/Relay.tla): iocopy.Bidirectional as two copier processes with read/write/half-close steps against endpoints that half-close, close or fail in any order (safety: byte-pipe per direction, reverse direction keeps flowing; liveness under weak fairness: returns once both directions finished), and iocopy.UDP's batching writer and de-framing reader transcribed from the loop with the tunnel stream cut at every offset (liveness <>returned; the pre-repair model is kept and TLC must still find its lasso). Transition-coverage behaviours and every cut offset are replayed on the real iocopy.Bidirectional / iocopy.UDP / tunnel.Tunnel with scripted endpoints and a watchdog; deliveries, datagram boundaries and Returned/Hung are judged by TLC (spec/RelayTrace.tla).",
+         "trusts TLC, spec/RelayTrace.tla as the reading of C12, scripted endpoints and loopback sockets, 5 s watchdog as 'promptly'; size classes stand for 1/2/255/65535 bytes",
+         "TLA+ model with liveness; TLC-generated schedules and cut offsets replayed on real code; TLC trace validation", "DESIGN.md §5 C12"),
+ "C20": ("The RFC 1928/1929 grammar is a byte-level reference parser in TLA+ (spec/Socks5Ref.tla) with a chunked-stream parser model (spec/Socks5.tla) model-checked for conformance, no read past the message, termination and UDP header round trip; TLC enumerates every grammar path x truncation point x chunking class; each is concretised (seeded fillers, domain lengths swept) and run on the real socks5.Listener.Handshake, SocksAdapter handshake/request handlers and parseUDPHeader/buildUDPHeader; outcome, reply bytes, bytes left unread and round trip are judged by TLC against the reference (spec/Socks5Trace.tla).",
+         "trusts TLC, spec/Socks5Ref.tla as the reading of RFC 1928/1929, the concretisation in drivers/c20; the verif-tagged export shims add no behaviour",
+         "TLA+ reference parser; TLC-enumerated grammar paths replayed on real parsers; TLC trace validation", "DESIGN.md §5 C20"),
  "C13": ("TLC enumerates every (state, operation) transition of the reference TTL key-value state graph (spec/KV.tla, per key-type family) and random deep histories; each is replayed on the real memory backend and on the real Redis backend over miniredis; TLC judges every recorded result against the reference (spec/KVTrace.tla).",
          "trusts TLC, spec/KVRef.tla as the reading of the statement, the result normalisation in drivers/c13, miniredis as Redis, real sleeps (120 ms TTL / 200 ms tick) for the clock",
          "TLA+ reference model; TLC transition-coverage generation; trace validation of real-code results by TLC", "DESIGN.md §5 C13"),
